@@ -427,8 +427,6 @@ ALLOW = {
     'session::Session::handle_piece_done::{closure#0}/index/self.pieces_status': 'index = piece_index recorded by the manager itself',
     'session::Session::handle_piece_cancel::{closure#0}/index/self.pieces_status': 'index = piece_index recorded by the manager itself',
     'session::Session::timeout_change_conn_state::{closure#0}::{closure#': 'rates are Some: guarded by the any(is_none) early return of the same function',
-    'session::Session::handle_tracker_cmd::{closure#0}/overflow:Sub/(AddWithOverflow(constants::MAX_UNCHOKED, constants::MAX_OPTIMISTIC).0 as i32),(std::iter::Iterator::count(':
-        'signed (i32) difference of a small constant and a peer count: may be negative, cannot overflow; clamped by max(0, ..)',
     'peer::Peer::handle_choke/index/pieces_status,self.piece_index': 'index recorded by the manager itself',
     'peer::Peer::handle_unchoke/index/pieces_status,chosen_index': 'chosen by choose_piece_index (< pieces_num)',
     'peer::Peer::handle_piece/index/pieces_status,chosen_index': 'chosen by choose_piece_index (< pieces_num)',
